@@ -48,7 +48,9 @@ CLAIMED = {
                  'constant thresholds (the documented domain); a counterexample for slope < -1 thresholds is recorded in Proofs/ElectreOrderFacts.v.',
                  'Coq proof over Qc + vm_compute checker and metamorphic runs on Go outputs', 'C06'),
     'C11': claim('Theorems (Properties/C11.v, exact rationals): tournament invariant of the fold; majority_passes_checker: winner first; every other entry names the opponent it last met, '
-                 'reports exactly the two scores, did not score higher, ranked below it; policy case analysis (take_better_policy_spec). Tie: full response correspondence on majority '
+                 'reports exactly the two scores, did not score higher, ranked below it; policy case analysis (take_better_policy_spec); majority_is_tournament: a declarative inductive relation '
+                 '(running leader with its tie group, next alternative of the search order, verdict by scores and draw policy) of which every returned ranking is a run, listed in reverse order of dropping '
+                 'out; C11_ok_sound: the checker evaluated on real responses implies the per-entry clauses in declarative form. Tie: full response correspondence on majority '
                  'requests (four policies, seeded order, three currentChoice positions) + checker recomputing scores from returned entries.',
                  'ids must be non-empty strings (witness in Proofs/MajorityFacts.v).',
                  'Coq proof of the tournament invariant + vm_compute correspondence and checker on Go outputs', 'C11'),
@@ -58,7 +60,8 @@ CLAIMED = {
                  'Coq proof of the elimination walk + vm_compute correspondence and checker on Go outputs', 'C12'),
     'C13': claim('Theorems (Properties/C13.v, any carrier with OrdLaws): satisfaction_passes_checker: accepted entries report and satisfy their level and fail every earlier one; '
                  'leftovers report the index after the last level and the worst value of each range; satisfaction_order_passes: the ranking is the order of acceptance (level by level, '
-                 'search order within a level, then the rest in search order). Tie: full correspondence + checkers C13_ok and C13_order_ok on every real response, instances of 13-22 alternatives included.',
+                 'search order within a level, then the rest in search order); satisfaction_meets_spec / _complete: the ranking is exactly the considered alternatives sorted by (first level met, search '
+                 'position) with the stated reports, and that specification determines it uniquely; C13_checkers_iff: the two checkers hold on an output exactly when it meets that specification. Tie: full correspondence + checkers C13_ok and C13_order_ok on every real response, instances of 13-22 alternatives included.',
                  'levels enumerable within the fuel and every alternative holding every criterion value (both guaranteed by validation).',
                  'Coq proof of the acceptance walk + vm_compute correspondence and checker on Go outputs', 'C13'),
     'C14': claim('Theorems (Properties/C14.v, exact rationals): validation = documented ranges; four update rules; strict monotonicity; threshold formula; declared range first; '
@@ -80,11 +83,12 @@ CLAIMED.update({
                  'partial for the runtime part: scheduler, clock and process state are checked by repetition and by the regenerated symbol scan, not proved.',
                  'Coq proof of map-order independence + regenerated inventory obligation + repetition across processes', 'C02'),
     'C07': claim('Theorems (Properties/C07.v): every bias maps coherent working data to coherent working data (every alternative has every current criterion, parameters cover them), lifted '
-                 'to every bias sequence and to the state the method is evaluated on; frame: only what is reported changes; alternatives and their split never change. Tie: every '
-                 'traced bias application of the real code is compared with the model step (state and report), and inv / frame are evaluated on the real states; a combination that '
-                 'fails in the code while the model succeeds is reported with its request.',
-                 'inv after a criterion-adding bias needs the parameter object to know the same criteria as the state (sync), established by prepare and preserved; totality '
-                 '(no error for valid properties) is decided by correspondence, not proved.',
+                 'to every bias sequence and to the state the method is evaluated on; frame: only what is reported changes; alternatives and their split never change; evaluate_total: on coherent data of the right parameter kind no method fails with a '
+                 'combination error (missing value / weight / criterion, collision, wrong kind, index), side conditions explicit and witnessed; the same for fatigue, omission, reversal, inline '
+                 'anchoring. Tie: every traced bias application of the real code is compared with the model step (state and report), and inv / frame / crits_as_reported (criteria after = before '
+                 '- reported omissions + reported additions) are evaluated on the real states; a combination that fails in the code while the model succeeds is reported with its request.',
+                 'inv after a criterion-adding bias needs the parameter object to know the same criteria as the state (sync), established by prepare and preserved; totality of concealment, '
+                 'mixing and new-criterion anchoring is decided by correspondence, not proved (witnesses of what they need beyond coherence in Proofs/TotalityFacts.v).',
                  'Coq invariant proof over bias sequences + per-stage correspondence on traced Go runs', 'C07'),
     'C08': claim('Theorems (Properties/C08.v): one echo per enabled bias in order with name and probability; disabled = absent (even unknown names); position i fires iff its '
                  'probability exceeds the i-th draw, independently of all other entries, monotonically; 1 always, 0 never; unfired = state unchanged, props null; exact frequency '
@@ -133,7 +137,7 @@ CLAIMED.update({
                  'scaled reference range; reference criterion among the existing ones (three strategies); new weight = u x reference weight, u in [0,1); mixing: no-op below two '
                  'criteria, formula, betweenness, distinct components, components in [0,T]; both pass the checker. Tie: per-stage correspondence + checker on traced concealment / mixing '
                  'applications inside random bias sequences (repeated application included).',
-                 'fresh id only under the stated prefix invariant (fresh_name_refuted_general gives the witness; the bias then fails cleanly); distinct alternative ids.',
+                 'distinct alternative ids. not_used_name_fresh: the generated id is never an existing id (defect D9 of the pinned tree, repaired by a fix: commit).',
                  'Coq proof over Qc + per-stage correspondence on traced Go runs', 'C18'),
 })
 
